@@ -16,6 +16,10 @@ pub struct Scenario {
     /// Upper bound on the number of completion orders explored for this scenario.
     #[serde(default)]
     pub max_orders: Option<usize>,
+    /// The project lives in this subdirectory of the scenario directory; n2 is started in the
+    /// scenario directory and told to go there with -C (the generator puts it in argv).
+    #[serde(default)]
+    pub cdir: String,
 }
 
 #[derive(Deserialize, Serialize, Clone, Debug)]
@@ -95,6 +99,9 @@ pub struct Invoke {
     pub k: usize,
     #[serde(default)]
     pub adopt: bool,
+    /// `-C <cdir>` is among the arguments: n2 is started one level up.
+    #[serde(default)]
+    pub cdir: String,
     /// `-d explain` is among the arguments: n2 logs why each step it runs is out of date.
     #[serde(default)]
     pub explain: bool,
